@@ -1,6 +1,460 @@
+/-
+  C05 — a table stays internally coherent after every sequence of operations.
+
+  Glue-state model of what `biom.table.Table` keeps besides the matrix: per axis the ID array,
+  the `id → position` dict and the metadata tuple, plus the matrix shape and content.  Every
+  mutating entry point is transcribed from table.py:
+
+    * the constructor (metadata normalisation, `errcheck` under the default profile — kinds visited
+      in sorted order, `empty` first with reaction `ignore`, so an empty table is never checked any
+      further —, `_index_ids` with optionally supplied lookups, `validate=False`),
+    * in-place `filter` (filtered axis re-indexed, the other axis gets a copy of the receiver's
+      lookup), `update_ids`, `add_metadata`, `del_metadata`, `transform` (content only).
+
+  Operations that return a new table (`sort_order`, `transpose`, `collapse`, `merge`, `concat`, …)
+  all end in a validated constructor call; for coherence what matters is that call, whatever the
+  arguments were, so histories quantify over arbitrary constructor arguments.
+-/
 import BiomModel.Codec
 open Lean
+
 namespace Biom.C05
-/-- stub: not built yet -/
-def handle (_req : Json) : Codec.R Json := .error "C05: model not built yet"
+
+/-- a Python dict `id → position` as an insertion-ordered association list; a later entry for
+the same key wins (`index_list` is a dict comprehension over `enumerate(ids)`). -/
+abbrev Dict := List (Id × Nat)
+
+def dictGet (d : Dict) (k : Id) : Option Nat := d.reverse.lookup k
+
+/-- `index_list(ids)` -/
+def indexList (ids : List Id) : Dict := ids.zipIdx
+
+structure AxisSt where
+  ids : List Id
+  index : Dict
+  md : Option (List Md)
+  deriving Repr, DecidableEq
+
+structure TState where
+  obs : AxisSt
+  samp : AxisSt
+  nrows : Nat
+  ncols : Nat
+  rows : List (List Rat)      -- nrows rows of ncols values (the matrix' dense content)
+  deriving Repr, DecidableEq
+
+def TState.axis (s : TState) : Axis → AxisSt
+  | .obs => s.obs
+  | .samp => s.samp
+
+/-! ### constructor -/
+
+/-- `no_metadata`: one None-or-empty entry per ID carries no information -/
+def normMd (md : Option (List Md)) (nIds : Nat) : Option (List Md) :=
+  match md with
+  | none => none
+  | some m => if m.length == nIds && m.all (·.isEmpty) then none else some m
+
+def hasDup (ids : List Id) : Bool := ids.eraseDups.length != ids.length
+
+/-- `errcheck(self)` under the default profile: `empty` (ignore) is visited first and ends the
+test when it fires; then obsdup, obsmdsize, obssize, sampdup, sampmdsize, sampsize (raise). -/
+def errcheckDefault (nrows ncols : Nat) (obsIds sampIds : List Id) (omd smd : Option (List Md)) : Bool :=
+  if sampIds.isEmpty || obsIds.isEmpty then true       -- `empty` fires: reaction ignore, nothing else tested
+  else
+    !(nrows != obsIds.eraseDups.length) &&
+    !(match omd with | some m => nrows != m.length | none => false) &&
+    !(nrows != obsIds.length) &&
+    !(ncols != sampIds.eraseDups.length) &&
+    !(match smd with | some m => ncols != m.length | none => false) &&
+    !(ncols != sampIds.length)
+
+structure CtorArgs where
+  nrows : Nat
+  ncols : Nat
+  rows : List (List Rat)
+  obsIds : List Id
+  sampIds : List Id
+  omd : Option (List Md)
+  smd : Option (List Md)
+  validate : Bool := true
+  obsIndex : Option Dict := none
+  sampIndex : Option Dict := none
+  deriving Repr
+
+def construct (a : CtorArgs) : Except Err TState :=
+  let omd := normMd a.omd a.obsIds.length
+  let smd := normMd a.smd a.sampIds.length
+  if a.validate && !(errcheckDefault a.nrows a.ncols a.obsIds a.sampIds omd smd) then .error .tableException
+  else .ok {
+    obs := { ids := a.obsIds, index := a.obsIndex.getD (indexList a.obsIds), md := omd },
+    samp := { ids := a.sampIds, index := a.sampIndex.getD (indexList a.sampIds), md := smd },
+    nrows := a.nrows, ncols := a.ncols, rows := a.rows }
+
+/-! ### in-place operations -/
+
+def filterCols (rows : List (List Rat)) (mask : List Bool) : List (List Rat) := rows.map (filterMask · mask)
+
+/-- `Table.filter(..., inplace=True)` given the Boolean keep-mask the kernel computed -/
+def filterInplace (s : TState) (ax : Axis) (mask : List Bool) : Except Err TState :=
+  match ax with
+  | .obs =>
+    if mask.length != s.obs.ids.length then .error .index else
+    let ids := filterMask s.obs.ids mask
+    .ok { s with obs := { ids, index := indexList ids, md := s.obs.md.map (filterMask · mask) },
+                 samp := { s.samp with index := s.samp.index },
+                 rows := filterMask s.rows mask, nrows := (filterMask s.rows mask).length }
+  | .samp =>
+    if mask.length != s.samp.ids.length then .error .index else
+    let ids := filterMask s.samp.ids mask
+    .ok { s with samp := { ids, index := indexList ids, md := s.samp.md.map (filterMask · mask) },
+                 obs := { s.obs with index := s.obs.index },
+                 rows := filterCols s.rows mask, ncols := (filterMask (List.replicate s.ncols ()) mask).length }
+
+/-- `update_ids(id_map, axis, strict, inplace=True)`: missing key under `strict` and duplicate
+results are refused before anything is changed -/
+def updateIdsInplace (s : TState) (ax : Axis) (idMap : List (Id × Id)) (strict : Bool) : Except Err TState :=
+  let a := s.axis ax
+  if strict && !(a.ids.all (fun i => (idMap.lookup i).isSome)) then .error .tableException else
+  let ids := a.ids.map (fun i => (idMap.lookup i).getD i)
+  if hasDup ids then .error .tableException else
+  let a' : AxisSt := { a with ids, index := indexList ids }
+  -- `_index_ids(None, None)` re-indexes BOTH axes
+  match ax with
+  | .obs => .ok { s with obs := a', samp := { s.samp with index := indexList s.samp.ids } }
+  | .samp => .ok { s with samp := a', obs := { s.obs with index := indexList s.obs.ids } }
+
+def mdUpdate (old : Md) (new : Md) : Md :=
+  new.foldl (fun m kv => (m.filter (·.1 != kv.1)) ++ [kv]) old
+
+/-- `add_metadata(md, axis)` -/
+def addMetadata (s : TState) (ax : Axis) (mapping : List (Id × Md)) : TState :=
+  let a := s.axis ax
+  let md' : Option (List Md) :=
+    match a.md with
+    | some m =>
+      -- per mapping entry: `if self.exists(id): metadata[self.index(id)].update(entry)`
+      some (mapping.foldl (fun m (idv : Id × Md) =>
+        match dictGet a.index idv.1 with
+        | some i => (match m[i]? with | some e => m.set i (mdUpdate e idv.2) | none => m)
+        | none => m) m)
+    | none =>
+      let t := a.ids.map (fun i => (mapping.lookup i).getD [])
+      -- `_cast_metadata`: a tuple of only None collapses to None
+      if a.ids.all (fun i => (mapping.lookup i).isNone) then none else some t
+  match ax with
+  | .obs => { s with obs := { a with md := md' } }
+  | .samp => { s with samp := { a with md := md' } }
+
+def delKeys (keys : Option (List String)) (a : AxisSt) : AxisSt :=
+  match keys with
+  | none => { a with md := none }
+  | some ks =>
+    match a.md with
+    | none => a
+    | some m =>
+      let m' := m.map (fun e => e.filter (fun kv => !ks.contains kv.1))
+      if m'.all (·.isEmpty) then { a with md := none } else { a with md := some m' }
+
+/-- `del_metadata(keys, axis)`; `axes` = the axes it is applied to -/
+def delMetadata (s : TState) (axes : List Axis) (keys : Option (List String)) : TState :=
+  { s with obs := if axes.contains .obs then delKeys keys s.obs else s.obs,
+           samp := if axes.contains .samp then delKeys keys s.samp else s.samp }
+
+/-- `transform(..., inplace=True)` and its instances: only the content changes -/
+def setContent (s : TState) (rows : List (List Rat)) : Except Err TState :=
+  if rows.length == s.nrows && rows.all (·.length == s.ncols) then .ok { s with rows } else .error .value
+
+/-! ### histories -/
+
+inductive Op where
+  | construct (a : CtorArgs)               -- any new-table operation ends here; the result replaces the state
+  | filter (ax : Axis) (mask : List Bool)
+  | updateIds (ax : Axis) (idMap : List (Id × Id)) (strict : Bool)
+  | addMd (ax : Axis) (mapping : List (Id × Md))
+  | delMd (axes : List Axis) (keys : Option (List String))
+  | setContent (rows : List (List Rat))
+  deriving Repr
+
+/-- one step; a refused operation leaves the state as it was -/
+def step (s : TState) : Op → TState
+  | .construct a => match construct a with | .ok s' => s' | .error _ => s
+  | .filter ax mask => match filterInplace s ax mask with | .ok s' => s' | .error _ => s
+  | .updateIds ax m strict => match updateIdsInplace s ax m strict with | .ok s' => s' | .error _ => s
+  | .addMd ax m => addMetadata s ax m
+  | .delMd axes ks => delMetadata s axes ks
+  | .setContent rows => match setContent s rows with | .ok s' => s' | .error _ => s
+
+def run (s : TState) (ops : List Op) : TState := ops.foldl step s
+
+/-! ### coherence -/
+
+def AxisCoherent (a : AxisSt) (n : Nat) : Prop :=
+  a.ids.length = n ∧ a.ids.Nodup ∧ (∀ id, dictGet a.index id = indexOf? a.ids id) ∧
+  (∀ m, a.md = some m → m.length = n)
+
+structure Coherent (s : TState) : Prop where
+  nrows : s.rows.length = s.nrows
+  ncols : ∀ r ∈ s.rows, r.length = s.ncols
+  obs : AxisCoherent s.obs s.nrows
+  samp : AxisCoherent s.samp s.ncols
+
+/-- an operation whose constructor call builds a table with an empty axis escapes `errcheck`
+(the `empty` kind masks every other test); histories are over non-empty constructions -/
+def Op.NonEmptyCtor : Op → Prop
+  | .construct a => a.obsIds ≠ [] ∧ a.sampIds ≠ [] ∧ a.validate = true ∧ a.obsIndex = none ∧ a.sampIndex = none ∧
+      a.rows.length = a.nrows ∧ (∀ r ∈ a.rows, r.length = a.ncols)
+  | _ => True
+
+/-! ### accessors, computed the way the code computes them -/
+
+/-- `index(id, axis)` -/
+def indexAcc (s : TState) (ax : Axis) (id : Id) : Except Err Nat :=
+  match dictGet (s.axis ax).index id with
+  | some i => .ok i
+  | none => .error .unknownId
+
+def existsAcc (s : TState) (ax : Axis) (id : Id) : Bool := (dictGet (s.axis ax).index id).isSome
+
+/-- `data(id, axis)` — `self[idx, :]` / `self[:, idx]` -/
+def dataAcc (s : TState) (ax : Axis) (id : Id) : Except Err (List Rat) := do
+  let i ← indexAcc s ax id
+  match ax with
+  | .obs => match s.rows[i]? with | some r => pure r | none => .error .index
+  | .samp => if i < s.ncols then pure (colAt s.rows i) else .error .index
+
+/-- `get_value_by_ids(obs_id, samp_id)` -/
+def valueAcc (s : TState) (o sa : Id) : Except Err Rat := do
+  let i ← indexAcc s .obs o
+  let j ← indexAcc s .samp sa
+  match s.rows[i]? with
+  | some r => match r[j]? with | some v => pure v | none => .error .index
+  | none => .error .index
+
+/-- `nonzero()`: walk of the rows listing (obs id, sample id) of every non-zero cell -/
+def nonzeroAcc (s : TState) : List (Id × Id) :=
+  (s.obs.ids.zip s.rows).flatMap (fun (o, r) => (s.samp.ids.zip r).filterMap (fun (sa, v) => if v != 0 then some (o, sa) else none))
+
+def sumRow (r : List Rat) : Rat := r.foldl (· + ·) 0
+def sumWhole (s : TState) : Rat := sumRow (s.rows.map sumRow)
+/-- `sum('observation')` = scipy axis 1 = one total per row -/
+def sumObs (s : TState) : List Rat := s.rows.map sumRow
+/-- `sum('sample')` = scipy axis 0 = one total per column -/
+def sumSamp (s : TState) : List Rat := (List.range s.ncols).map (fun j => sumRow (colAt s.rows j))
+def nnzAcc (s : TState) : Nat := (s.rows.map (fun r => (r.filter (· != 0)).length)).foldl (· + ·) 0
+
+/-! ### the property, on one observed state -/
+
+structure Observed where
+  obsIds : List Id
+  sampIds : List Id
+  shape : Nat × Nat
+  indexObs : List (Option Nat)        -- index(id) for every id in ids order (none = UnknownID)
+  indexSamp : List (Option Nat)
+  existsObs : List Bool
+  existsSamp : List Bool
+  probesUnknown : List Bool           -- for ids known not to be present: "reported unknown" (index raised and exists false)
+  omdLen : Option Nat
+  smdLen : Option Nat
+  dense : List (List Rat)             -- matrix_data of a deep copy
+  dataObs : List (List Rat)           -- data(id,'observation') per id
+  dataSamp : List (List Rat)
+  cells : List (List Rat)             -- get_value_by_ids for every pair
+  iterObs : List (Id × List Rat)
+  iterSamp : List (Id × List Rat)
+  pairwiseObs : List ((Id × List Rat) × (Id × List Rat))
+  nonzero : List (Id × Id)
+  sumWhole : Rat
+  sumObs : List Rat
+  sumSamp : List Rat
+  nnz : Nat
+  density : Rat
+  deriving Repr
+
+open Codec in
+def holds (o : Observed) : Verdict :=
+  let n := o.obsIds.length
+  let m := o.sampIds.length
+  let nonEmpty := n > 0 && m > 0
+  let grid := o.dense
+  let col (j : Nat) := colAt grid j
+  let expNonzero := (o.obsIds.zip grid).flatMap (fun (oi, r) =>
+      (o.sampIds.zip r).filterMap (fun (si, v) => if v != 0 then some (oi, si) else none))
+  let expNnz := expNonzero.length
+  allV [
+    chk "shape = (|obs ids|, |sample ids|)" (o.shape == (n, m)),
+    chk "dense matrix has the declared shape" (grid.length == n && grid.all (·.length == m)),
+    chk "observation ids unique" (!hasDup o.obsIds),
+    chk "sample ids unique" (!hasDup o.sampIds),
+    chk "index(obs id) = its position" (o.indexObs == (List.range n).map some),
+    chk "index(sample id) = its position" (o.indexSamp == (List.range m).map some),
+    chk "exists true on every id" (o.existsObs.all id && o.existsSamp.all id && o.existsObs.length == n && o.existsSamp.length == m),
+    chk "unknown ids reported unknown" (o.probesUnknown.all id),
+    chk "observation metadata one entry per id" (match o.omdLen with | none => true | some l => l == n),
+    chk "sample metadata one entry per id" (match o.smdLen with | none => true | some l => l == m),
+    chk "data(obs id) = its row" (!nonEmpty || o.dataObs == grid),
+    chk "data(sample id) = its column" (!nonEmpty || o.dataSamp == (List.range m).map col),
+    chk "get_value_by_ids = the cell" (!nonEmpty || o.cells == grid),
+    chk "iter(observation) yields every id with its row, in order" (!nonEmpty || o.iterObs == o.obsIds.zip grid),
+    chk "iter(sample) yields every id with its column, in order" (!nonEmpty || o.iterSamp == o.sampIds.zip ((List.range m).map col)),
+    chk "iter_pairwise(observation) pairs carry their own rows" (!nonEmpty ||
+      o.pairwiseObs.all (fun (a, b) => lookupBy o.obsIds grid a.1 == some a.2 && lookupBy o.obsIds grid b.1 == some b.2)),
+    chk "iter_pairwise(observation) lists every unordered pair once"
+      (!nonEmpty || o.pairwiseObs.map (fun (a, b) => (a.1, b.1)) ==
+        (List.range n).flatMap (fun i => ((List.range n).filter (· > i)).filterMap (fun j =>
+          match o.obsIds[i]?, o.obsIds[j]? with | some a, some b => some (a, b) | _, _ => none))),
+    chk "nonzero() lists exactly the non-zero cells" (!nonEmpty ||
+      (o.nonzero.all (expNonzero.contains ·) && expNonzero.all (o.nonzero.contains ·) && o.nonzero.length == expNnz)),
+    chk "sum(whole)" (o.sumWhole == sumRow (grid.map sumRow)),
+    chk "sum(observation)" (o.sumObs == grid.map sumRow),
+    chk "sum(sample)" (o.sumSamp == (List.range m).map (fun j => sumRow (col j))),
+    chk "nnz" (o.nnz == expNnz),
+    chk "density = nnz / (N*M)" (if nonEmpty then o.density * ((n * m : Nat) : Rat) == (expNnz : Rat) else o.density == 0)
+  ]
+
+/-- what the model's accessors report for a state -/
+def observe (s : TState) (unknownProbes : List (Axis × Id)) : Observed :=
+  let okOr (d : List Rat) (e : Except Err (List Rat)) := match e with | .ok v => v | .error _ => d
+  let idx (ax : Axis) (id : Id) : Option Nat := match indexAcc s ax id with | .ok i => some i | .error _ => none
+  let n := s.obs.ids.length
+  { obsIds := s.obs.ids, sampIds := s.samp.ids, shape := (s.nrows, s.ncols),
+    indexObs := s.obs.ids.map (idx .obs), indexSamp := s.samp.ids.map (idx .samp),
+    existsObs := s.obs.ids.map (existsAcc s .obs), existsSamp := s.samp.ids.map (existsAcc s .samp),
+    probesUnknown := unknownProbes.map (fun (ax, id) => (idx ax id).isNone && !(existsAcc s ax id)),
+    omdLen := s.obs.md.map (·.length), smdLen := s.samp.md.map (·.length),
+    dense := s.rows,
+    dataObs := s.obs.ids.map (fun i => okOr [] (dataAcc s .obs i)),
+    dataSamp := s.samp.ids.map (fun i => okOr [] (dataAcc s .samp i)),
+    cells := s.obs.ids.map (fun o => s.samp.ids.map (fun sa => match valueAcc s o sa with | .ok v => v | .error _ => 0)),
+    iterObs := s.obs.ids.zip s.rows,
+    iterSamp := s.samp.ids.zip ((List.range s.ncols).map (colAt s.rows)),
+    pairwiseObs := (List.range n).flatMap (fun i => ((List.range n).filter (· > i)).filterMap (fun j =>
+      match s.obs.ids[i]?, s.obs.ids[j]? with
+      | some a, some b => some ((a, okOr [] (dataAcc s .obs a)), (b, okOr [] (dataAcc s .obs b)))
+      | _, _ => none)),
+    nonzero := nonzeroAcc s,
+    sumWhole := sumWhole s, sumObs := sumObs s, sumSamp := sumSamp s, nnz := nnzAcc s,
+    density := if s.obs.ids.isEmpty || s.samp.ids.isEmpty then 0 else (nnzAcc s : Rat) / ((s.samp.ids.length * s.obs.ids.length : Nat) : Rat) }
+
+end Biom.C05
+
+/-! ### JSON glue -/
+namespace Biom.C05
+open Codec
+
+def asDict (j : Json) : R Dict := asList (fun p => do
+  match (← asArr p) with
+  | [a, b] => pure ((← asStr a), (← asNat b))
+  | _ => .error "dict pair") j
+
+def asMdList (j : Json) : R (List Md) := asList asMd j
+
+def asCtor (j : Json) : R CtorArgs := do
+  pure { nrows := (← natF j "nrows"), ncols := (← natF j "ncols"), rows := (← listF (asList asRat) j "rows"),
+         obsIds := (← listF asStr j "obs_ids"), sampIds := (← listF asStr j "samp_ids"),
+         omd := (← optF asMdList j "omd"), smd := (← optF asMdList j "smd"),
+         validate := (← boolFD j "validate" true),
+         obsIndex := (← optF asDict j "obs_index"), sampIndex := (← optF asDict j "samp_index") }
+
+def asPairs (f : Json → R β) (j : Json) : R (List (Id × β)) := asList (fun p => do
+  match (← asArr p) with
+  | [a, b] => pure ((← asStr a), (← f b))
+  | _ => .error "pair") j
+
+def asOp (j : Json) : R Op := do
+  match (← strF j "op") with
+  | "construct" => pure (.construct (← asCtor (← fld j "args")))
+  | "filter" => pure (.filter (← axisF j "axis") (← listF asBool j "mask"))
+  | "update_ids" => pure (.updateIds (← axisF j "axis") (← asPairs asStr (← fld j "id_map")) (← boolF j "strict"))
+  | "add_md" => pure (.addMd (← axisF j "axis") (← asPairs asMd (← fld j "mapping")))
+  | "del_md" => pure (.delMd (← listF asAxis j "axes") (← optF (asList asStr) j "keys"))
+  | "set_content" => pure (.setContent (← listF (asList asRat) j "rows"))
+  | s => .error s!"bad op {s}"
+
+def asIdVec (j : Json) : R (Id × List Rat) := do
+  match (← asArr j) with
+  | [a, b] => pure ((← asStr a), (← asList asRat b))
+  | _ => .error "id/vector pair"
+
+def asObserved (j : Json) : R Observed := do
+  let shape ← listF asNat j "shape"
+  let optNat (x : Json) : R (Option Nat) := asOpt asNat x
+  pure {
+    obsIds := (← listF asStr j "obs_ids"), sampIds := (← listF asStr j "samp_ids"),
+    shape := (shape.getD 0 0, shape.getD 1 0),
+    indexObs := (← listF optNat j "index_obs"), indexSamp := (← listF optNat j "index_samp"),
+    existsObs := (← listF asBool j "exists_obs"), existsSamp := (← listF asBool j "exists_samp"),
+    probesUnknown := (← listF asBool j "probes_unknown"),
+    omdLen := (← optF asNat j "omd_len"), smdLen := (← optF asNat j "smd_len"),
+    dense := (← listF (asList asRat) j "dense"),
+    dataObs := (← listF (asList asRat) j "data_obs"), dataSamp := (← listF (asList asRat) j "data_samp"),
+    cells := (← listF (asList asRat) j "cells"),
+    iterObs := (← listF asIdVec j "iter_obs"), iterSamp := (← listF asIdVec j "iter_samp"),
+    pairwiseObs := (← listF (fun p => do
+        match (← asArr p) with
+        | [a, b] => pure ((← asIdVec a), (← asIdVec b))
+        | _ => .error "pairwise entry") j "pairwise_obs"),
+    nonzero := (← listF (fun p => do
+        match (← asArr p) with
+        | [a, b] => pure ((← asStr a), (← asStr b))
+        | _ => .error "nonzero entry") j "nonzero"),
+    sumWhole := (← asRat (← fld j "sum_whole")), sumObs := (← listF asRat j "sum_obs"),
+    sumSamp := (← listF asRat j "sum_samp"), nnz := (← natF j "nnz"), density := (← asRat (← fld j "density")) }
+
+def idVecToJson (p : Id × List Rat) : Json := .arr #[.str p.1, ratsToJson p.2]
+
+def observedToJson (o : Observed) : Json :=
+  let optNat (x : Option Nat) : Json := match x with | none => .null | some n => toJson n
+  Json.mkObj [
+    ("obs_ids", strsToJson o.obsIds), ("samp_ids", strsToJson o.sampIds),
+    ("shape", natsToJson [o.shape.1, o.shape.2]),
+    ("index_obs", .arr (o.indexObs.map optNat).toArray), ("index_samp", .arr (o.indexSamp.map optNat).toArray),
+    ("exists_obs", boolsToJson o.existsObs), ("exists_samp", boolsToJson o.existsSamp),
+    ("probes_unknown", boolsToJson o.probesUnknown),
+    ("omd_len", optNat o.omdLen), ("smd_len", optNat o.smdLen),
+    ("dense", gridToJson o.dense), ("data_obs", gridToJson o.dataObs), ("data_samp", gridToJson o.dataSamp),
+    ("cells", gridToJson o.cells),
+    ("iter_obs", .arr (o.iterObs.map idVecToJson).toArray), ("iter_samp", .arr (o.iterSamp.map idVecToJson).toArray),
+    ("pairwise_obs", .arr (o.pairwiseObs.map (fun (a, b) => Json.arr #[idVecToJson a, idVecToJson b])).toArray),
+    ("nonzero", .arr (o.nonzero.map (fun (a, b) => Json.arr #[.str a, .str b])).toArray),
+    ("sum_whole", ratToJson o.sumWhole), ("sum_obs", ratsToJson o.sumObs), ("sum_samp", ratsToJson o.sumSamp),
+    ("nnz", toJson o.nnz), ("density", ratToJson o.density)]
+
+/-- order-free comparison of the two observations (nonzero() order is layout dependent) -/
+def sameObserved (a b : Observed) : Bool :=
+  let key (o : Observed) := (observedToJson { o with nonzero := [] }).compress
+  key a == key b && a.nonzero.all (b.nonzero.contains ·) && b.nonzero.all (a.nonzero.contains ·) &&
+    a.nonzero.length == b.nonzero.length
+
+/-- request: {"steps":[{"ops":[model ops for this step], "obs": Observed, "md": {"omd":…,"smd":…}}…], "probes":[[axis,id]…]}
+    the first step's ops must start with a construct (the start table). -/
+def handle (req : Json) : R Json := do
+  let steps ← asArr (← fld req "steps")
+  let probes ← listF (fun p => do
+      match (← asArr p) with
+      | [a, b] => pure ((← asAxis a), (← asStr b))
+      | _ => .error "probe") req "probes"
+  let dummy : TState := { obs := ⟨[], [], none⟩, samp := ⟨[], [], none⟩, nrows := 0, ncols := 0, rows := [] }
+  let mut st := dummy
+  let mut out : Array Json := #[]
+  for sj in steps do
+    let ops ← listF asOp sj "ops"
+    let obs ← asObserved (← fld sj "obs")
+    st := run st ops
+    let mobs := observe st probes
+    let v := holds obs
+    let mdAgree : Bool :=
+      match optFld sj "md" with
+      | none => true
+      | some mj =>
+        let om := (optF asMdList mj "omd").toOption.getD none
+        let sm := (optF asMdList mj "smd").toOption.getD none
+        om == st.obs.md && sm == st.samp.md
+    let agree := sameObserved mobs obs && mdAgree
+    out := out.push (Json.mkObj (verdictToJson v ++ [("model_holds", .bool (holds mobs).isNone), ("agree", .bool agree),
+      ("model", if agree then .null else Json.mkObj [("obs", observedToJson mobs),
+         ("omd", optToJson (fun m => .arr (m.map mdToJson).toArray) st.obs.md),
+         ("smd", optToJson (fun m => .arr (m.map mdToJson).toArray) st.samp.md)])]))
+  pure (Json.mkObj [("steps", .arr out)])
+
 end Biom.C05
